@@ -3,6 +3,9 @@
 A mutant changes one comparison operator, one +/- or one literal 1 inside a listed C function; the extension modules
 and the native harnesses are rebuilt from the scratch worktree by the checks themselves.
 
+C08 (sanitizers) is not among the checks run per mutant: a one-token functional change rarely becomes a memory error
+and its quick check alone takes over a minute per mutant.
+
 usage: python -m vf.mutate_c --worktree /tmp/wtM --out mutation/results_c.jsonl --per-target 12 [target ...]
 """
 import argparse
@@ -17,21 +20,21 @@ from .mutate import run_check
 CDIR = "src/DTAIDistanceC/DTAIDistanceC/"
 TARGETS = {
     "c_distance": (CDIR + "dd_dtw.c", ["dtw_distance", "dtw_distance_ndim", "dtw_distance_euclidean", "dtw_distance_ndim_euclidean"],
-                   ["C02", "C03", "C10", "C08"]),
+                   ["C02", "C03", "C10"]),
     "c_wps": (CDIR + "dd_dtw.c", ["dtw_warping_paths_ndim", "dtw_warping_paths_ndim_euclidean", "dtw_expand_wps_slice", "dtw_wps_parts",
-                                  "dtw_wps_loc", "dtw_settings_wps_width"], ["C04", "C05", "C08"]),
+                                  "dtw_wps_loc", "dtw_settings_wps_width"], ["C04", "C05"]),
     "c_path": (CDIR + "dd_dtw.c", ["dtw_best_path", "dtw_best_path_customstart", "dtw_best_path_isclose", "dtw_warping_path",
-                                   "dtw_warping_path_ndim"], ["C05", "C12", "C08"]),
+                                   "dtw_warping_path_ndim"], ["C05", "C12"]),
     "c_affinity": (CDIR + "dd_dtw.c", ["dtw_warping_paths_affinity_ndim", "dtw_best_path_affinity", "dtw_wps_max", "dtw_wps_negativize",
-                                       "dtw_wps_positivize", "dtw_wps_negativize_value", "dtw_expand_wps_slice_affinity"], ["C18", "C08"]),
-    "c_bounds": (CDIR + "dd_dtw.c", ["lb_keogh", "lb_keogh_euclidean", "ub_euclidean", "ub_euclidean_ndim"], ["C09", "C14", "C08"]),
+                                       "dtw_wps_positivize", "dtw_wps_negativize_value", "dtw_expand_wps_slice_affinity"], ["C18"]),
+    "c_bounds": (CDIR + "dd_dtw.c", ["lb_keogh", "lb_keogh_euclidean", "ub_euclidean", "ub_euclidean_ndim"], ["C09", "C14"]),
     "c_ed": (CDIR + "dd_ed.c", ["euclidean_distance", "euclidean_distance_ndim", "euclidean_distance_euclidean",
                                 "euclidean_distance_ndim_euclidean"], ["C09", "C02"]),
     "c_matrix": (CDIR + "dd_dtw.c", ["dtw_distances_ptrs", "dtw_distances_ndim_ptrs", "dtw_distances_matrix", "dtw_distances_ndim_matrix",
-                                     "dtw_distances_length", "dtw_block_is_valid"], ["C06", "C08"]),
-    "c_dba": (CDIR + "dd_dtw.c", ["dtw_dba_ptrs", "dtw_dba_matrix", "bit_test"], ["C12", "C08"]),
+                                     "dtw_distances_length", "dtw_block_is_valid"], ["C06"]),
+    "c_dba": (CDIR + "dd_dtw.c", ["dtw_dba_ptrs", "dtw_dba_matrix", "bit_test"], ["C12"]),
     "c_omp": (CDIR + "dd_dtw_openmp.c", ["dtw_distances_prepare", "dtw_distances_ptrs_parallel", "dtw_distances_ndim_ptrs_parallel",
-                                          "dtw_distances_matrix_parallel", "dtw_distances_ndim_matrix_parallel"], ["C07", "C08"]),
+                                          "dtw_distances_matrix_parallel", "dtw_distances_ndim_matrix_parallel"], ["C07"]),
 }
 
 TOKENS = [(re.compile(r"(?<![<>=!\-+])<=(?!=)"), "<"), (re.compile(r"(?<![<>=!\-])>=(?!=)"), ">"),
